@@ -59,6 +59,15 @@ fn check_df<const N: usize>(s: &str) -> Result<(), (String, String)> {
     }
     // the other ways of reading the characters back: the iterator's own count/size_hint/nth/last, Display, a clone
     let n = want_chars.len();
+    let nth_ok = [0usize, n / 2, n.saturating_sub(1), n, n + 1].iter().all(|k| d.chars().nth(*k) == want_chars.get(*k).copied());
+    let skip_ok = [0usize, n.saturating_sub(1), n].iter().all(|k| d.chars().skip(*k).collect::<Vec<char>>() == want_chars.iter().skip(*k).copied().collect::<Vec<char>>());
+    let step_ok = [1usize, 2, n.max(2) - 1, n.max(1)].iter().all(|k| d.chars().step_by(*k).collect::<Vec<char>>() == want_chars.iter().step_by(*k).copied().collect::<Vec<char>>());
+    let mut two = d.chars();
+    let first = two.next();
+    let rest_ok = first == want_chars.first().copied() && two.nth(0) == want_chars.get(1).copied() && two.last() == if n > 2 { want_chars.last().copied() } else { None };
+    if !nth_ok || !skip_ok || !step_ok || !rest_ok {
+        return Err((format!("c17:descriptor<{}>:chars-iterator", N), format!("Df88591String<{}>::chars(): nth / skip / step_by / next-then-nth-then-last disagree with the {} stored characters (nth {}, skip {}, step_by {}, sequence {})", N, n, nth_ok, skip_ok, step_ok, rest_ok)));
+    }
     if d.chars().count() != n || d.chars().size_hint() != (n, Some(n)) || d.chars().last() != want_chars.last().copied() || (n > 0 && d.chars().nth(n / 2) != Some(want_chars[n / 2])) {
         return Err((format!("c17:descriptor<{}>:chars-iterator", N), format!("Df88591String<{}>::chars(): count/size_hint/nth/last disagree with the {} stored characters", N, n)));
     }
